@@ -434,10 +434,58 @@ func c10Send(addr string, cn c10Conn) bool {
 	case "rst":
 		tc.SetLinger(0)
 	case "linger":
-		time.Sleep(300 * time.Microsecond)
+		time.Sleep(1500 * time.Microsecond)
 	}
 	tc.Close()
 	return true
+}
+
+// c10RespondHostile joins under one of the commanded keys, waits (bounded) for a platform command and then sends
+// response-type frames with mutated / adversarial bodies, some echoing the command's real serial.
+func c10RespondHostile(addr string, g gen.G, pool map[uint16][][]byte, j *core.Journal, a, i int) {
+	t, err := svc.Dial(addr, g.Chance(1, 3), fmt.Sprintf("665%d", g.Intn(5)))
+	if err != nil {
+		return
+	}
+	defer t.Close()
+	t.Write(t.Frame(0x0002, 1, nil))
+	var cmdSerial uint16
+	got := false
+	for k := 0; k < 4; k++ {
+		rx, ok, to := t.Next(60 * time.Millisecond)
+		if to || !ok {
+			break
+		}
+		if rx.F != nil && rx.F.ID != 0x8001 {
+			cmdSerial, got = rx.F.Serial, true
+			break
+		}
+	}
+	respIDs := []uint16{0x0001, 0x0104, 0x0805, 0x1205, 0x1206}
+	for k := 1 + g.Intn(4); k > 0; k-- {
+		id := respIDs[g.Intn(len(respIDs))]
+		var body []byte
+		if bs := pool[id]; len(bs) > 0 {
+			body = append([]byte{}, bs[g.Intn(len(bs))]...)
+		} else {
+			body = g.Bytes(3 + g.Intn(20))
+		}
+		if got && len(body) >= 2 && g.Chance(2, 3) {
+			body[0], body[1] = byte(cmdSerial>>8), byte(cmdSerial) // echo the outstanding command's serial
+		}
+		if g.Chance(3, 4) {
+			body = c10Mutate(g, body)
+		}
+		f := t.Frame(id, g.U16(), body)
+		j.Log(true, "responder %d/%d outstanding=%v frame=%s", a, i, got, core.HexCap(f, 1400))
+		if t.Write(f) != nil {
+			return
+		}
+	}
+	time.Sleep(time.Duration(g.Intn(800)) * time.Microsecond)
+	if g.Bool() {
+		t.Reset()
+	}
 }
 
 // ---- JT808 server ---------------------------------------------------------------------------
@@ -531,6 +579,28 @@ func c10JT808(c *core.Collector, x *Ctx, parsing bool) {
 			c10Canary(c, srv.Addr, x.Batch*10+i, &stop, &rounds)
 		}(i)
 	}
+	// platform commands keep arriving for the keys the hostile connections use: with a command outstanding, response-type
+	// frames (0x0001 0x0104 0x0805 0x1205 0x1206) from the hostile peer go through the response-matching path and its parsers
+	var cmds atomic.Int64
+	for k := 0; k < 2; k++ {
+		wg.Add(1)
+		go func(k int) {
+			defer wg.Done()
+			cmdList := []consts.JT808CommandType{consts.P8104QueryTerminalParams, consts.P8103SetTerminalParams, consts.P8801CameraShootImmediateCommand, consts.P9205QueryResourceList, consts.P9206FileUploadInstructions}
+			for i := 0; !stop.Load(); i++ {
+				key := fmt.Sprintf("665%d", (i+k)%5)
+				res := sendCmd(srv.G, key, cmdList[i%len(cmdList)], []byte{1, 2, 3, 4}, 40*time.Millisecond, 40*time.Millisecond+slackFor(40*time.Millisecond))
+				if res.kind == "stranded" {
+					c.Violate("stranded|a platform command to a hostile terminal's key never returned", fmt.Sprintf("key %s; service goroutines: %v", key, goroutineDump()), nil)
+					return
+				}
+				if res.kind != "notexist" {
+					cmds.Add(1)
+				}
+				time.Sleep(300 * time.Microsecond)
+			}
+		}(k)
+	}
 	n := c.N(1500, 8000)
 	g := gen.G{Rand: core.NewRand(c.Seed, "c10/"+fmt.Sprint(parsing), uint64(x.Batch))}
 	pool := c10Bodies(g)
@@ -544,6 +614,13 @@ func c10JT808(c *core.Collector, x *Ctx, parsing bool) {
 			defer awg.Done()
 			ga := gen.G{Rand: core.NewRand(c.Seed, "c10a/"+fmt.Sprint(parsing), uint64(x.Batch*16+a))}
 			for i := 0; i < n/4; i++ {
+				if i%7 == 6 {
+					// a hostile terminal that waits for a platform command and answers it with malformed response-type frames
+					c10RespondHostile(srv.Addr, ga, pool, x.Journal, a, i)
+					c.Eval()
+					c.Count("hostile_responders", 1)
+					continue
+				}
 				cn := c10Hostile(ga, pool, false)
 				x.Journal.Log(true, "conn %d/%d close=%s writes=%s", a, i, cn.Close, c10Hex(cn.Writes))
 				if !c10Send(srv.Addr, cn) {
@@ -590,6 +667,7 @@ func c10JT808(c *core.Collector, x *Ctx, parsing bool) {
 	stop.Store(true)
 	wg.Wait()
 	c.Count("canary_rounds", rounds.Load())
+	c.Count("commands_routed_to_hostile_connections", cmds.Load())
 	c.Count("probes", int64(probes))
 	c.Floor("canary_rounds", 50)
 	c.Floor("probes", 20)
